@@ -22,6 +22,7 @@ mod d_scan;
 mod d_scope;
 mod d_sel;
 mod d_txt;
+mod d_vms;
 
 pub struct Out {
   pub req: std::io::BufWriter<std::fs::File>,
@@ -135,6 +136,7 @@ fn main() {
     "scope" => d_scope::run(&args),
     "limits" => d_limits::run(&args),
     "fixb" => d_fixb::run(&args),
+    "vms" => d_vms::run(&args),
     "txt" => d_txt::run(&args),
     "dlint" => d_dlint::run_all(&args),
     x => {
